@@ -16,6 +16,7 @@ import (
 	"hash/fnv"
 	"os"
 	"path/filepath"
+	"runtime/debug"
 	"sort"
 	"strconv"
 	"strings"
@@ -321,6 +322,52 @@ type vfFailFile struct {
 	Sub      string           `json:"sub"`
 	Case     ejson.RawMessage `json:"case"`
 	Error    string           `json:"error"`
+	// History: the cases of the same sub-check that this process executed immediately before
+	// the failing one (oldest first). A replay runs them first, without garbage collection in
+	// between, so that failures which depend on what earlier detections left behind (pooled
+	// scratch state, caches, a changed limit) reproduce from the file.
+	History []ejson.RawMessage `json:"history,omitempty"`
+}
+
+// ring of the most recently executed cases (values, marshalled only when needed)
+type vfHistEntry struct {
+	sub string
+	c   any
+}
+
+var (
+	vfHistMu   sync.Mutex
+	vfHistRing [3]vfHistEntry
+	vfHistN    int
+)
+
+func vfHistPush(sub string, c any) {
+	vfHistMu.Lock()
+	vfHistRing[vfHistN%len(vfHistRing)] = vfHistEntry{sub, c}
+	vfHistN++
+	vfHistMu.Unlock()
+}
+
+// vfHistBefore returns the cases executed before the most recent one, oldest first.
+func vfHistBefore(sub string) []ejson.RawMessage {
+	vfHistMu.Lock()
+	defer vfHistMu.Unlock()
+	var out []ejson.RawMessage
+	n := len(vfHistRing)
+	for k := n - 1; k >= 1; k-- { // skip k=0: the most recent push is the case itself
+		i := vfHistN - 1 - k
+		if i < 0 {
+			continue
+		}
+		e := vfHistRing[i%n]
+		if e.sub != sub || e.c == nil {
+			continue
+		}
+		if b, err := ejson.Marshal(e.c); err == nil && len(b) < 1<<18 {
+			out = append(out, b)
+		}
+	}
+	return out
 }
 
 var vfFailMu sync.Mutex
@@ -343,7 +390,7 @@ func vfWriteFail(prop, sub string, c any, err error) {
 		return
 	}
 	vfFailBest[sub] = len(cb)
-	b, _ := ejson.MarshalIndent(vfFailFile{Property: prop, Sub: sub, Case: cb, Error: err.Error()}, "", " ")
+	b, _ := ejson.MarshalIndent(vfFailFile{Property: prop, Sub: sub, Case: cb, Error: err.Error(), History: vfHistBefore(sub)}, "", " ")
 	name := out + ".fail." + sub + ".json"
 	_ = os.WriteFile(name, b, 0o644)
 }
@@ -364,7 +411,7 @@ func vfJournal(prop, sub string, c any) {
 	if err != nil {
 		return
 	}
-	b, _ := ejson.Marshal(vfFailFile{Property: prop, Sub: sub, Case: cb, Error: "process died while running this case (journal)"})
+	b, _ := ejson.Marshal(vfFailFile{Property: prop, Sub: sub, Case: cb, Error: "process died while running this case (journal)", History: vfHistBefore(sub)})
 	vfJournalMu.Lock()
 	defer vfJournalMu.Unlock()
 	if vfJournalF == nil {
@@ -445,6 +492,7 @@ func (s vfSub[C]) safeCheck(c C) (r vfResult) {
 			r = vfResult{Err: fmt.Errorf("panic: %v", p)}
 		}
 	}()
+	vfHistPush(s.Name, c)
 	return s.Check(c)
 }
 
@@ -480,9 +528,17 @@ func vfRun[C any](t *testing.T, s vfSub[C]) {
 		if err != nil {
 			t.Fatalf("replay: case does not decode: %v", err)
 		}
+		// re-create the recorded history first; no GC in between (it would empty the sync.Pools)
+		oldGC := debug.SetGCPercent(-1)
+		for _, hraw := range ff.History {
+			if hc, err := s.decode(hraw); err == nil {
+				_ = s.safeCheck(hc)
+			}
+		}
 		r := s.safeCheck(c)
+		debug.SetGCPercent(oldGC)
 		vfStats.record(r, func() any { return s.sample(c) })
-		vfStats.Subchecks[s.Name] = "replayed"
+		vfStats.Subchecks[s.Name] = fmt.Sprintf("replayed (after %d history cases)", len(ff.History))
 		if r.Err != nil {
 			vfWriteFail(s.Prop, s.Name, c, r.Err)
 			t.Fatalf("REPLAY-FAILS %s/%s: %v", s.Prop, s.Name, r.Err)
